@@ -24,6 +24,9 @@ unsafe impl GlobalAlloc for Counting {
     unsafe fn dealloc(&self, p: *mut u8, l: Layout) {
         if krt::BUF_PTR != 0 && p as usize == krt::BUF_PTR && !REUSED {
             krt::BUF_FREES += 1;
+            if l.size() != krt::BUF_BYTES || l.align() != krt::BUF_ALIGN {
+                krt::BUF_BAD_LAYOUT = true;
+            }
             LIVE = false;
         }
         System.dealloc(p, l)
